@@ -344,7 +344,7 @@ def ops_for(kind):
 
 def make_target(kind, w):
     if kind == "list":
-        return [1, "a", (2, 3), None, 1.5][:2 + w.draw(4)], [9, "z"]
+        return ([1, "a", (2, 3), None, 1.5] + list(range(w.draw(4) * 10)))[:2 + w.draw(36)], [9, "z"]
     if kind == "dict":
         return {"a": 1, 2: "b", (1, 2): None}, {"a": 5, "new": 6}
     if kind == "set":
@@ -354,7 +354,7 @@ def make_target(kind, w):
     if kind == "deque":
         return collections.deque([1, "a", (2,)], w.pick((None, 4))), collections.deque([7, 8])
     if kind == "iterator":
-        return iter([1, "a", (2, 3), None, 5, 6, 7][:w.draw(8)]), [0]
+        return iter(([1, "a", (2, 3), None, 5, 6, 7] + list(range(100, 100 + w.draw(40))))[:w.draw(48)]), [0]
     if kind == "generator":
         return gen3(), [0]
     if kind == "bytesio":
@@ -443,7 +443,7 @@ def run_one(choices, params):
                 return slice(a if a != 5 else None, b if b != 7 else None)
 
             def buffiter(self, x):
-                ch, mx, fa = 1 + self.d[0] % 4, 1 + self.d[1] % 7, 1 + self.d[2] % 3
+                ch, mx, fa = 1 + self.d[0] % 12, 1 + self.d[1] % 12, 1 + self.d[2] % 3
                 if self.side == "p":
                     sim.count("c02:buffiter")
                     return list(buffiter(x, ch, mx, fa))
